@@ -30,6 +30,11 @@ struct St {
     c: Vec<Val>,
 }
 #[derive(Serialize, Deserialize, PartialEq, Debug, Clone)]
+struct PlainSt {
+    a: i32,
+    b: String,
+}
+#[derive(Serialize, Deserialize, PartialEq, Debug, Clone)]
 struct Tst(Val, bool);
 #[derive(Serialize, Deserialize, PartialEq, Debug, Clone)]
 struct UnitS;
@@ -52,6 +57,20 @@ enum Val {
     St(Box<St>),
     New(Box<Val>),
     SV { x: Box<Val>, y: Option<Box<Val>> },
+    /// struct variants whose fields are plain (not enum-wrapped) collections
+    PlainM { i: i32, m: BTreeMap<String, i32>, s: Vec<i32> },
+    PlainS { s: Vec<i32>, p: PlainSt, t: (i32, String) },
+    /// a struct variant whose serialized field names are no plain-safe keys
+    RV {
+        #[serde(rename = "@id")]
+        id: i32,
+        #[serde(rename = "#text")]
+        text: Box<Val>,
+        #[serde(rename = "null")]
+        n: bool,
+        #[serde(rename = "a: b")]
+        colon: Option<i32>,
+    },
     US(UnitS),
     NS(NewS),
 }
@@ -93,7 +112,10 @@ fn gen_val(rng: &mut Rng, depth: usize) -> Val {
         };
     }
     let d = depth - 1;
-    match rng.below(12) {
+    match rng.below(15) {
+        13 => Val::PlainM { i: rng.below(9) as i32, m: (0..rng.below(3)).map(|i| (format!("k{i}"), i as i32)).collect(), s: (0..rng.below(3)).map(|i| i as i32).collect() },
+        14 => Val::PlainS { s: (0..rng.below(3)).map(|i| i as i32).collect(), p: PlainSt { a: 1, b: rng.pick(STRS).to_string() }, t: (2, "x".into()) },
+        12 => Val::RV { id: rng.below(9) as i32, text: Box::new(gen_val(rng, d)), n: rng.chance(1, 2), colon: if rng.chance(1, 2) { Some(3) } else { None } },
         0 => Val::Opt(Some(Box::new(gen_val(rng, d)))),
         1 => Val::Seq((0..rng.below(4)).map(|_| gen_val(rng, d)).collect()),
         2 => Val::Tup(Box::new(gen_val(rng, d)), Box::new(gen_val(rng, d))),
@@ -175,9 +197,14 @@ fn round_trip<T: Serialize + serde::de::DeserializeOwned + PartialEq + std::fmt:
     // rather than under the first item (root maps keyed by a tuple / a sequence)
     let raw_seq_key = what.starts_with("root map keyed by");
     let multi_line_key = (dbg.contains("KMap") && (dbg.contains("Str(\"multi\\nline\")") || (ov.compact && (dbg.contains("Pair(") || dbg.contains("Seq(["))))) || (raw_seq_key && (ov.compact || ov.step != 2));
-    let legacy = |c: &str| {
-        if ov.step == 1 {
-            // (F46) with an indentation step of 1 a block nested under an inline key after a dash is not deeper than that key
+    let legacy = |c: &str, text: &str| {
+        // (F46) with an indentation step of 1 a block nested under an inline key after a dash (`- key:` / `- Variant:` / a
+        // block scalar header after such a key) is not deeper than that key: only documents that have such a line
+        let key_after_dash = text.lines().any(|l| {
+            let t = l.trim_start();
+            (t.starts_with("- ") || t.starts_with("? ")) && (t.ends_with(':') || t.contains(": |") || t.contains(": >") || t.ends_with(":") || t[2..].trim_start().starts_with("? "))
+        });
+        if ov.step == 1 && key_after_dash {
             "F46:indent-step-1".to_string()
         } else if !ov.braces && has_empty {
             "F42:legacy-empty-collections".to_string()
@@ -203,7 +230,7 @@ fn round_trip<T: Serialize + serde::de::DeserializeOwned + PartialEq + std::fmt:
     match serde_saphyr::from_multiple_with_options::<T>(&text, dopts(ov.yaml_12)) {
         Ok(docs) if docs.len() == 1 && docs[0] == *v => true,
         Ok(docs) if docs.len() == 1 => {
-            ctx.fail(&legacy("round-trip-differs"), format!("[{}] {what}: emitted {text:?}, read back {:?}, value {v:?}", ov.name(), docs[0]), replay);
+            ctx.fail(&legacy("round-trip-differs", &text), format!("[{}] {what}: emitted {text:?}, read back {:?}, value {v:?}", ov.name(), docs[0]), replay);
             false
         }
         Ok(docs) => {
@@ -214,32 +241,33 @@ fn round_trip<T: Serialize + serde::de::DeserializeOwned + PartialEq + std::fmt:
                     _ => {}
                 }
             }
-            ctx.fail(&legacy("not-one-document"), format!("[{}] {what}: emitted {text:?} reads as {} documents", ov.name(), docs.len()), replay);
+            ctx.fail(&legacy("not-one-document", &text), format!("[{}] {what}: emitted {text:?} reads as {} documents", ov.name(), docs.len()), replay);
             false
         }
         Err(e) => {
-            ctx.fail(&legacy("does-not-parse"), format!("[{}] {what}: emitted {text:?}: {}", ov.name(), e.to_string().lines().next().unwrap_or("")), replay);
+            ctx.fail(&legacy("does-not-parse", &text), format!("[{}] {what}: emitted {text:?}: {}", ov.name(), e.to_string().lines().next().unwrap_or("")), replay);
             false
         }
     }
 }
 
 fn all_positions(ctx: &mut Ctx, v: &Val, ov: &Ov) {
+    // (every position is tried: a position that fails for a recorded reason must not hide the ones after it)
     let ok = round_trip(ctx, "root", v, ov)
-        && round_trip(ctx, "sequence item", &vec![v.clone(), v.clone()], ov)
-        && round_trip(ctx, "mapping value", &BTreeMap::from([("k".to_string(), v.clone()), ("z".to_string(), Val::I(1))]), ov)
-        && round_trip(ctx, "option", &Some(v.clone()), ov)
-        && round_trip(ctx, "tuple", &(v.clone(), 5, v.clone()), ov)
-        && round_trip(ctx, "struct", &St { a: v.clone(), b: Some(v.clone()), c: vec![v.clone()] }, ov)
-        && round_trip(ctx, "nested sequences", &vec![vec![v.clone()], vec![], vec![v.clone(), v.clone()]], ov)
+        & round_trip(ctx, "sequence item", &vec![v.clone(), v.clone()], ov)
+        & round_trip(ctx, "mapping value", &BTreeMap::from([("k".to_string(), v.clone()), ("z".to_string(), Val::I(1))]), ov)
+        & round_trip(ctx, "option", &Some(v.clone()), ov)
+        & round_trip(ctx, "tuple", &(v.clone(), 5, v.clone()), ov)
+        & round_trip(ctx, "struct", &St { a: v.clone(), b: Some(v.clone()), c: vec![v.clone()] }, ov)
+        & round_trip(ctx, "nested sequences", &vec![vec![v.clone()], vec![], vec![v.clone(), v.clone()]], ov)
         // sequences directly inside sequence items, below a mapping key / three levels deep / in a tuple variant
-        && round_trip(ctx, "field of nested sequences", &BTreeMap::from([("name".to_string(), vec![]), ("rows".to_string(), vec![vec![v.clone(), v.clone()], vec![v.clone()]])]), ov)
-        && round_trip(ctx, "three-level sequences", &vec![vec![vec![v.clone(), v.clone()]], vec![vec![v.clone()], vec![v.clone()]]], ov)
-        && round_trip(ctx, "tuple variant with a sequence of tuples", &Wr::Poly(vec![(v.clone(), 1), (v.clone(), 2)], true), ov)
-        && round_trip(ctx, "struct variant as a mapping value", &BTreeMap::from([("shape".to_string(), Wr::Seg(Box::new(v.clone()), 7))]), ov)
+        & round_trip(ctx, "field of nested sequences", &BTreeMap::from([("name".to_string(), vec![]), ("rows".to_string(), vec![vec![v.clone(), v.clone()], vec![v.clone()]])]), ov)
+        & round_trip(ctx, "three-level sequences", &vec![vec![vec![v.clone(), v.clone()]], vec![vec![v.clone()], vec![v.clone()]]], ov)
+        & round_trip(ctx, "tuple variant with a sequence of tuples", &Wr::Poly(vec![(v.clone(), 1), (v.clone(), 2)], true), ov)
+        & round_trip(ctx, "struct variant as a mapping value", &BTreeMap::from([("shape".to_string(), Wr::Seg(Box::new(v.clone()), 7))]), ov)
         // composite keys at the root of the document
-        && round_trip(ctx, "root map keyed by a tuple", &BTreeMap::from([((1, 2), v.clone()), ((3, 4), Val::I(5))]), ov)
-        && round_trip(ctx, "root map keyed by a sequence", &BTreeMap::from([(vec![1, 2], v.clone())]), ov);
+        & round_trip(ctx, "root map keyed by a tuple", &BTreeMap::from([((1, 2), v.clone()), ((3, 4), Val::I(5))]), ov)
+        & round_trip(ctx, "root map keyed by a sequence", &BTreeMap::from([(vec![1, 2], v.clone())]), ov);
     let _ = ok;
 }
 
@@ -361,6 +389,14 @@ pub fn run(ctx: &mut Ctx) {
             all_positions(ctx, v, &ov);
         }
     }
+    // an indentation step of 1 (thorough has it in every vector): scalar leaves in every position under all its vectors
+    if quick {
+        for v in [Val::I(1), Val::S("a".into())] {
+            for ov in all_ovs(&[1]) {
+                all_positions(ctx, &v, &ov);
+            }
+        }
+    }
     // a fixed small set under ALL option vectors
     let fixed = vec![
         Val::Seq(vec![Val::Seq(vec![Val::I(1), Val::I(2)]), Val::Seq(vec![])]),
@@ -368,6 +404,15 @@ pub fn run(ctx: &mut Ctx) {
         Val::St(Box::new(St { a: Val::SV { x: Box::new(Val::Unit), y: None }, b: None, c: vec![Val::Tup(Box::new(Val::I(1)), Box::new(Val::S("multi\nline".into())))] })),
         Val::KMap(BTreeMap::from([(K::Pair(1, 2), Val::I(1)), (K::Seq(vec![1]), Val::Seq(vec![Val::I(2)])), (K::Unit, Val::Unit)])),
         Val::New(Box::new(Val::New(Box::new(Val::Opt(Some(Box::new(Val::Seq(vec![Val::Unit])))))))),
+        // struct variants whose fields are non-empty collections (as sequence items the layout hint after the dash must be spent)
+        Val::SV { x: Box::new(Val::Map(BTreeMap::from([("a".to_string(), Val::I(1)), ("b".to_string(), Val::S("x".into()))]))), y: Some(Box::new(Val::Seq(vec![Val::I(1), Val::I(2)]))) },
+        Val::SV { x: Box::new(Val::Seq(vec![Val::I(1), Val::I(2)])), y: None },
+        Val::SV { x: Box::new(Val::I(1)), y: Some(Box::new(Val::St(Box::new(St { a: Val::I(1), b: None, c: vec![Val::I(2)] })))) },
+        Val::RV { id: 7, text: Box::new(Val::S("t".into())), n: true, colon: Some(1) },
+        Val::PlainM { i: 1, m: BTreeMap::from([("a".to_string(), 1), ("b".to_string(), 2)]), s: vec![1, 2] },
+        Val::PlainS { s: vec![1, 2], p: PlainSt { a: 1, b: "x".into() }, t: (2, "y".into()) },
+        // nested sequences with more than one element
+        Val::Seq(vec![Val::Seq(vec![Val::I(1), Val::I(2), Val::I(3)]), Val::Seq(vec![Val::I(4), Val::I(5)])]),
     ];
     for v in &fixed {
         for ov in &ovs {
